@@ -124,7 +124,9 @@ class Interp:
                 elif name == 'mark_as_output':
                     work.mark_as_output(self._pick(work, op['x']) if not op.get('absent') else '__absent__')
                 elif name == 'set_outputs':
-                    work.set_outputs([self._pick(work, x) for x in op['xs']] if self._labels(work) else [])
+                    arg = [self._pick(work, x) for x in op['xs']] if self._labels(work) else []
+                    work.set_outputs(arg)
+                    arg.append('__junk__')  # the caller's list is the caller's: later edits must not reach the circuit
                 elif name == 'set_inputs':
                     ins = list(work.inputs)
                     if ins:
@@ -133,6 +135,7 @@ class Interp:
                     if op.get('invalid'):
                         ins = ins[:-1] if ins else ['__absent__']
                     work.set_inputs(ins)
+                    ins.append('__junk__')
                 elif name == 'order_inputs':
                     ins = list(work.inputs)
                     part = [ins[(op['x'] + q) % len(ins)] for q in range(min(len(ins), 1 + op['y'] % 2))] if ins else []
@@ -148,6 +151,8 @@ class Interp:
                     if op.get('non_input'):
                         t = [self._pick(work, op['x'])]
                     work.replace_inputs(t, f)
+                    t.append('__junk__')
+                    f.append('__junk__')
                 elif name == 'connect':
                     if op.get('from_pool'):
                         other = copy.deepcopy(self.pool[op['j'] % POOL])
@@ -189,6 +194,8 @@ class Interp:
                         right = False
                     else:
                         work.connect_circuit(other, this, oth, right_connect=right, **kw)
+                        this.append('__junk__')
+                        oth.append('__junk__')
                     kind = 'connect_right_like' if right else 'connect_left_like'
                 elif name == 'replace_subcircuit':
                     nl = refsem.from_circuit(work)
@@ -208,6 +215,9 @@ class Interp:
                     outs = gs[-1:]
                     ins = None if op.get('auto_inputs') else [labs[x % len(labs)] for x in op.get('ins', [])] if labs else []
                     work.make_block(op.get('name', 'B'), gs, outs, ins)
+                    for lst in (gs, outs, ins):
+                        if isinstance(lst, list):
+                            lst.append('__junk__')
                 elif name == 'make_block_from_slice':
                     labs = self._labels(work)
                     ins = [labs[x % len(labs)] for x in op.get('ins', [])] if labs else []
@@ -215,6 +225,8 @@ class Interp:
                     if op.get('all_inputs'):
                         ins = list(work.inputs)
                     work.make_block_from_slice(op.get('name', 'S'), ins, outs)
+                    ins.append('__junk__')
+                    outs.append('__junk__')
                 elif name == 'delete_block':
                     names = list(work.blocks)
                     work.delete_block(names[op['x'] % len(names)] if names else '__none__')
